@@ -10,7 +10,7 @@ use crate::rng::{hash_strs, Rng};
 use pkgsrc::Pattern;
 use std::cmp::Ordering;
 
-const PATS: [(&str, &[&str]); 10] = [
+const PATS: [(&str, &[&str]); 15] = [
     // a base and the same base continued by a byte that sorts below '-'
     // (gtk / gtk+): byte-wise order of the names is not order of the bases
     ("*-[0-9]*", &["gtk", "gtk+", "gtk++", "gtk,", "gtk!", "g", "g++"]),
@@ -23,6 +23,13 @@ const PATS: [(&str, &[&str]); 10] = [
     ("{a,b,c}{,x}>=1", &["a", "b", "c", "ax", "cx", "d"]),
     ("?oo-*", &["foo", "boo", "Foo", "fo"]),
     ("*", &["p", "q", "foo-bar"]),
+    // an empty base: the name's only '-' is its first byte
+    ("-[0-9]*", &["", "x"]),
+    (">0", &["", "p"]),
+    ("*", &["", "p"]),
+    // an empty alternative in last and in middle position
+    ("foo{-bin,}-[0-9]*", &["foo", "foo-bin", "foo-bi"]),
+    ("{,lib}x{,y,}-*", &["x", "libx", "xy", "libxy"]),
 ];
 
 const EQUAL_SPELLINGS: [&[&str]; 5] = [
